@@ -103,9 +103,14 @@ def check(ctx: Ctx):
         lp = loops[0]
         accs = {cf.acc for cf in M.accumulator_compares(f)}
         acc = accs.pop() if len(accs) == 1 else "best_cost"
-        RR.check_arg_list_update(ctx, f, "R-TIES", lp, "arg_best", acc)
-        RR.check_list_starts_empty(ctx, f, "R-TIES", "arg_best", lp)
-        RR.check_return_pair(ctx, f, "R-SLOTS", "arg_best", acc)
+        # the list of optimal values is the first slot of the returned pair, whatever its name
+        rets_ = [r for r in walk_no_nested(f.node) if isinstance(r, ast.Return) and isinstance(r.value, ast.Tuple) and len(r.value.elts) == 2 and isinstance(r.value.elts[0], ast.Name)]
+        lname = rets_[0].value.elts[0].id if rets_ and norm(rets_[0].value.elts[1]) == acc else "arg_best"
+        RR.check_arg_list_update(ctx, f, "R-TIES", lp, lname, acc)
+        RR.check_list_starts_empty(ctx, f, "R-TIES", lname, lp)
+        if not RR.list_inits(f, lname):
+            ctx.bad("R-TIES", f"{f.qualname}: {lname} starts as an empty list", f, f.node, f"'{lname}' is never initialised")
+        RR.check_return_pair(ctx, f, "R-SLOTS", lname, acc)
         cand = ([cf.cand for cf in M.accumulator_compares(f)] or ["cost"])[0]
         _own_cost_term(ctx, f, lp, cand, var_expr, "R-OWNCOST")
         # the candidate is written into the assignment before costing it
